@@ -6,6 +6,20 @@ names 'a', 'ab', 'b', 'a b' (prefixes of one another, one with a blank) that kee
 distinct; every Section carries 0-2 Properties whose names come from the same pool.  Thorough adds
 large random trees.  The oracle is a parallel model (plain Python objects) built together with the
 document; expected paths, breadth-first orders and relation sets are computed on the model only.
+
+Second dimension - WHERE THE TREE HANGS and HOW IT CAME TO BE (hang_views): the same clauses are evaluated on
+  * Documents assembled in other ways than Section(parent=...): bottom-up with append, with insert(0, ...) in
+    reverse creation order, through the `parent` setter;
+  * Section trees that belong to no Document: built stand-alone, the clone of every Section, every Section after
+    it was removed from its parent (remove / parent = None); start nodes at every level of such trees;
+  * the clone of the whole Document (every lookup must stay inside the clone);
+  * Documents after a usage history: a subtree removed, moved to another place of the same Document, moved into
+    another Document, a clone of a subtree attached at a second place (equal content twice), a Section renamed,
+    a Section moved to the front of its parent's list;
+  * 'uniform' content: every Section has the same type and the same Property, so that Sections compare equal
+    (==) to their parent, to siblings' children and to their clones although they are different objects.
+A tree without a Document has no absolute paths (the statement speaks of the Sections of a document), therefore
+on such trees only traversals, find/find_related and those relative paths that do not pass the top are judged.
 """
 from __future__ import annotations
 
@@ -15,6 +29,7 @@ import random
 from rcc import harness as h
 
 odml = h.odml
+from odml.tools.xmlparser import XMLReader, XMLWriter      # noqa: E402
 
 NAMES = ['a', 'ab', 'b', 'a b']
 CASE_NAMES = ['a', 'A', 'Ab', 'ab']
@@ -27,13 +42,43 @@ TYPES = ['t', 'T', 'setup/daq', 'setup']
 
 class M(object):
     """Model node: Section (or the Document when name is None)."""
-    def __init__(self, name, type_, parent):
+    def __init__(self, name, type_, parent, is_doc=False):
         self.name = name
         self.type = type_
         self.parent = parent
+        self.is_doc = is_doc
         self.children = []
-        self.props = []          # list of (name, values, obj)
+        self.props = []          # list of [name, values, obj]
         self.obj = None
+
+    def top(self):
+        n = self
+        while n.parent is not None:
+            n = n.parent
+        return n
+
+    def label(self):
+        """Readable position: '/a/b' in a Document, '<top>/a/b' in a tree that has no Document."""
+        t = self.top()
+        if t.is_doc:
+            return '/' + '/'.join(self.path_names())
+        return '<parentless %s>' % t.name + ''.join('/' + x for x in self.path_names())
+
+    def kind(self):
+        """Where the node hangs: stable label used in the failure classes."""
+        if self.is_doc:
+            return 'document'
+        t = self.top()
+        if t.is_doc:
+            return 'section'
+        return 'parentless-section' if t is self else 'section-in-parentless-tree'
+
+    def subtree(self):
+        """Sections of the tree below self in pre-order, self included unless it is the Document."""
+        out = [] if self.is_doc else [self]
+        for c in self.children:
+            out.extend(c.subtree())
+        return out
 
     def path_names(self):
         out = []
@@ -76,29 +121,151 @@ def prop_values(pname, k):
     return {'a': [k], 'ab': ['x', 'y'], 'a b': [], 'b': [1.5, 2.5, 3.5]}.get(pname, ['v%d' % k])
 
 
-def build(shape, names, types=None, props=None):
-    """Build document + model from a forest shape; names[k] is the name of the k-th node (pre-order)."""
-    counter = itertools.count()
-    with h.quiet():
-        doc = odml.Document()
-        root = M(None, None, None)
-        root.obj = doc
-        nodes = []
+UNIFORM_TYPE = 't'
+UNIFORM_PROPS = ['a']
+UNIFORM_VALUES = [1]
 
-        def add(mpar, forest):
-            for sub in forest:
-                k = next(counter)
+
+def make_model(shape, names, types=None, props=None, uniform=False):
+    """Model only (no library objects): Document node + Sections in pre-order; names[k] names the k-th node."""
+    counter = itertools.count()
+    root = M(None, None, None, is_doc=True)
+    nodes = []
+
+    def add(mpar, forest):
+        for sub in forest:
+            k = next(counter)
+            if uniform:
+                m = M(names[k], UNIFORM_TYPE, mpar)
+                m.props = [[pn, list(UNIFORM_VALUES), None] for pn in UNIFORM_PROPS]
+            else:
                 m = M(names[k], (types or TYPES)[k % len(types or TYPES)], mpar)
-                m.obj = odml.Section(name=m.name, type=m.type, parent=mpar.obj)
-                mpar.children.append(m)
-                nodes.append(m)
-                for pn in (props[k] if props is not None else prop_pattern(k)):
-                    vals = prop_values(pn, k)
-                    p = odml.Property(name=pn, values=list(vals), parent=m.obj)
-                    m.props.append((pn, list(vals), p))
-                add(m, sub)
-        add(root, shape)
-    return doc, root, nodes
+                m.props = [[pn, list(prop_values(pn, k)), None]
+                           for pn in (props[k] if props is not None else prop_pattern(k))]
+            mpar.children.append(m)
+            nodes.append(m)
+            add(m, sub)
+    add(root, shape)
+    return root, nodes
+
+
+BUILD_MODES = ['topdown', 'bottomup', 'insert0', 'setter']
+
+
+def realize(root, mode='topdown'):
+    """Create the library objects of the model tree below root (a Document node or a parentless Section node).
+    topdown : Section(parent=...) / Property(parent=...) in pre-order
+    bottomup: every subtree is completed stand-alone and then appended to its parent
+    insert0 : like bottomup, but children are created in reverse order and put in with insert(0, ...)
+    setter  : objects are created stand-alone and attached top-down through `obj.parent = ...`"""
+    with h.quiet():
+        if root.is_doc:
+            root.obj = odml.Document()
+        else:
+            root.obj = odml.Section(name=root.name, type=root.type)
+            _realize_props(root, mode)
+        _realize_children(root, mode)
+    return root
+
+
+def _realize_props(m, mode):
+    if mode == 'topdown':
+        for pr in m.props:
+            pr[2] = odml.Property(name=pr[0], values=list(pr[1]), parent=m.obj)
+    elif mode == 'insert0':
+        for pr in reversed(m.props):
+            pr[2] = odml.Property(name=pr[0], values=list(pr[1]))
+            m.obj.insert(0, pr[2])
+    else:
+        for pr in m.props:
+            pr[2] = odml.Property(name=pr[0], values=list(pr[1]))
+            if mode == 'setter':
+                pr[2].parent = m.obj
+            else:
+                m.obj.append(pr[2])
+
+
+def _realize_children(m, mode):
+    if mode == 'topdown':
+        for c in m.children:
+            c.obj = odml.Section(name=c.name, type=c.type, parent=m.obj)
+            _realize_props(c, mode)
+            _realize_children(c, mode)
+    elif mode == 'setter':
+        for c in m.children:
+            c.obj = odml.Section(name=c.name, type=c.type)
+            c.obj.parent = m.obj
+            _realize_props(c, mode)
+            _realize_children(c, mode)
+    elif mode == 'bottomup':
+        for c in m.children:
+            c.obj = odml.Section(name=c.name, type=c.type)
+            _realize_props(c, mode)
+            _realize_children(c, mode)
+            m.obj.append(c.obj)
+    elif mode == 'insert0':
+        for c in reversed(m.children):
+            c.obj = odml.Section(name=c.name, type=c.type)
+            _realize_props(c, mode)
+            _realize_children(c, mode)
+            m.obj.insert(0, c.obj)
+    else:
+        raise ValueError(mode)
+
+
+def build(shape, names, types=None, props=None, uniform=False, mode='topdown'):
+    """Build document + model from a forest shape; names[k] is the name of the k-th node (pre-order)."""
+    root, nodes = make_model(shape, names, types, props, uniform)
+    realize(root, mode)
+    return root.obj, root, nodes
+
+
+# --- model surgery (mirrors what is done to the library objects) -----------------------------------
+
+def m_detach(m):
+    m.parent.children.remove(m)
+    m.parent = None
+
+
+def m_attach(m, newpar, pos=None):
+    if m.parent is not None:
+        m_detach(m)
+    m.parent = newpar
+    if pos is None:
+        newpar.children.append(m)
+    else:
+        newpar.children.insert(pos, m)
+
+
+def m_copy(m, parent=None):
+    c = M(m.name, m.type, parent, m.is_doc)
+    c.props = [[pn, list(v), None] for pn, v, _p in m.props]
+    c.children = [m_copy(x, c) for x in m.children]
+    return c
+
+
+def m_bind(m, obj, take_values=False):
+    """Bind the objects of a clone to a copied model (positionally, verified by name through private fields).
+    False if the clone does not have the structure of the original - that is not C14's business.
+    take_values: the model takes over the value lists the objects hold (a saved and loaded copy; whether values
+    survive saving is another property - here only their enumeration is judged)."""
+    m.obj = obj
+    secs = list(list.__iter__(obj._sections))
+    if [x._name for x in secs] != [c.name for c in m.children]:
+        return False
+    if not m.is_doc:
+        props = list(list.__iter__(obj._props))
+        if [x._name for x in props] != [pr[0] for pr in m.props]:
+            return False
+        for pr, p in zip(m.props, props):
+            pr[2] = p
+            if take_values:
+                pr[1] = list(list.__iter__(p._values))
+    return all(m_bind(c, x, take_values) for c, x in zip(m.children, secs))
+
+
+def in_subtree(n, anc):
+    return n is anc or anc in n.ancestors()
 
 
 def count_nodes(forest):
@@ -149,18 +316,45 @@ def relation(a, b):
     return 'cousins-common-%s' % root
 
 
-def is_id(x, y):
-    return x is y
+def call(fn, *a, **kw):
+    """('ret', value) | ('exc', exception).  Output is silenced once per check (see `silenced`), not per call."""
+    try:
+        return 'ret', fn(*a, **kw)
+    except Exception as exc:       # noqa
+        return 'exc', exc
 
 
+def silenced(fn):
+    def wrapper(*a, **kw):
+        with h.quiet():
+            return fn(*a, **kw)
+    wrapper.__name__ = fn.__name__
+    return wrapper
+
+
+def lca(a, b):
+    """Lowest node that is a or b or an ancestor of both (None if they are in different trees)."""
+    chain_b = [b] + b.ancestors()
+    for x in [a] + a.ancestors():
+        if x in chain_b:
+            return x
+    return None
+
+
+def all_starts(root, nodes):
+    return ([root] if root.is_doc else []) + list(nodes)
+
+
+@silenced
 def check_paths(col, tag, doc, root, nodes, witness, starts=None):
     name = col.name
-    all_starts = [root] + nodes
-    starts = starts if starts is not None else all_starts
+    if not root.is_doc:
+        return      # a tree without a Document has no absolute paths; the statement is silent about it
+    starts = starts if starts is not None else all_starts(root, nodes)
     # absolute paths of Sections
     for s in nodes:
         expected = '/' + '/'.join(s.path_names())
-        kind, path = h.call(s.obj.get_path)
+        kind, path = call(s.obj.get_path)
         col.case(cls_key=(tag, 'sec-get_path', len(s.path_names())), sample='%s get_path %s' % (witness, expected))
         if kind == 'exc' or path != expected:
             col.fail(check=name + '/section-get_path', cls={'clause': 'section-get_path', 'feature': 'depth>=1'},
@@ -168,19 +362,19 @@ def check_paths(col, tag, doc, root, nodes, witness, starts=None):
                      detail='observed %r; contract requires the path %r' % (path, expected))
             continue
         for st in starts:
-            kind, got = h.call(st.obj.get_section_by_path, path)
-            col.case(cls_key=(tag, 'sec-abs-lookup', st.parent is None, relation(st, s) if st.parent else 'doc'))
+            kind, got = call(st.obj.get_section_by_path, path)
+            col.case(cls_key=(tag, 'sec-abs-lookup', st.is_doc, 'doc' if st.is_doc else relation(st, s)))
             if kind == 'exc' or got is not s.obj:
                 col.fail(check=name + '/abs-section-lookup',
                          cls={'clause': 'abs-section-lookup',
-                              'feature': 'start-%s' % ('document' if st.parent is None else relation(st, s))},
+                              'feature': 'start-%s' % ('document' if st.is_doc else relation(st, s))},
                          witness={'doc': witness, 'start': '/' + '/'.join(st.path_names()), 'path': path},
                          detail='observed %r; contract requires the Section at %s itself' % (got, expected))
     # absolute paths of Properties
     for s in nodes:
         for pn, _vals, p in s.props:
             expected = '/' + '/'.join(s.path_names()) + ':' + pn
-            kind, path = h.call(p.get_path)
+            kind, path = call(p.get_path)
             col.case(cls_key=(tag, 'prop-get_path', len(s.path_names())))
             if kind == 'exc' or path != expected:
                 col.fail(check=name + '/property-get_path', cls={'clause': 'property-get_path', 'feature': 'attached'},
@@ -188,33 +382,39 @@ def check_paths(col, tag, doc, root, nodes, witness, starts=None):
                          detail='observed %r; contract requires %r' % (path, expected))
                 continue
             for st in starts:
-                kind, got = h.call(st.obj.get_property_by_path, path)
-                col.case(cls_key=(tag, 'prop-abs-lookup', st.parent is None))
+                kind, got = call(st.obj.get_property_by_path, path)
+                col.case(cls_key=(tag, 'prop-abs-lookup', st.is_doc))
                 if kind == 'exc' or got is not p:
                     col.fail(check=name + '/abs-property-lookup',
                              cls={'clause': 'abs-property-lookup',
-                                  'feature': 'start-%s' % ('document' if st.parent is None else relation(st, s))},
+                                  'feature': 'start-%s' % ('document' if st.is_doc else relation(st, s))},
                              witness={'doc': witness, 'start': '/' + '/'.join(st.path_names()), 'path': path},
                              detail='observed %r; contract requires the Property %s itself' % (got, expected))
 
 
+@silenced
 def check_relative(col, tag, doc, root, nodes, witness, pairs=None):
     name = col.name
     if pairs is None:
         pairs = [(a, b) for a in nodes for b in nodes]
     for a, b in pairs:
         rel = relation(a, b)
+        if not root.is_doc:
+            # Without a Document only relative paths that stay below the top of the tree are defined.
+            if lca(a, b) is root:
+                continue
+            rel = 'parentless-tree ' + rel
         col.case(cls_key=(tag, 'rel', rel), sample='%s: %s -> %s' % (witness, a.path_names(), b.path_names()))
-        kind, rp = h.call(a.obj.get_relative_path, b.obj)
+        kind, rp = call(a.obj.get_relative_path, b.obj)
         if kind == 'exc':
             col.fail(check=name + '/relative-path-computed', cls={'clause': 'relative-path-computed', 'feature': rel},
-                     witness={'doc': witness, 'from': a.path_names(), 'to': b.path_names()},
+                     witness={'doc': witness, 'from': a.label(), 'to': b.label()},
                      detail='get_relative_path raised %r' % (rp,))
             continue
-        kind, got = h.call(a.obj.get_section_by_path, rp)
+        kind, got = call(a.obj.get_section_by_path, rp)
         if kind == 'exc' or got is not b.obj:
             col.fail(check=name + '/relative-path-resolves', cls={'clause': 'relative-path-resolves', 'feature': rel},
-                     witness={'doc': witness, 'from': a.path_names(), 'to': b.path_names(), 'relative_path': rp},
+                     witness={'doc': witness, 'from': a.label(), 'to': b.label(), 'relative_path': rp},
                      detail='a.get_section_by_path(%r) gave %r; contract requires b itself' % (rp, got))
 
 
@@ -223,10 +423,12 @@ PROP_FILTERS = [('all', None), ('name-is-a', lambda p: p.name == 'a')]
 VAL_FILTERS = [('all', None), ('len>1', lambda v: len(v) > 1)]
 
 
+@silenced
 def check_iter(col, tag, doc, root, nodes, witness, starts=None):
     name = col.name
-    for st in (starts if starts is not None else [root] + nodes):
-        is_doc = st.parent is None
+    for st in (starts if starts is not None else all_starts(root, nodes)):
+        is_doc = st.is_doc
+        sk = st.kind()
         ht = st.height()
         for md in [None] + list(range(0, ht + 2)):
             lv = st.levels(md)
@@ -241,16 +443,16 @@ def check_iter(col, tag, doc, root, nodes, witness, starts=None):
                     kw = {'max_depth': md, 'yield_self': ys}
                     if ff is not None:
                         kw['filter_func'] = ff
-                    kind, got = h.call(lambda: list(st.obj.itersections(**kw)))
-                    col.case(cls_key=(tag, 'itersections', is_doc, dcls, ys, fname))
+                    kind, got = call(lambda: list(st.obj.itersections(**kw)))
+                    col.case(cls_key=(tag, 'itersections', sk, dcls, ys, fname))
                     if kind == 'exc' or len(got) != len(exp) or any(g is not e.obj for g, e in zip(got, exp)):
                         col.fail(check=name + '/itersections',
                                  cls={'clause': 'itersections-exact-bfs', 'feature': 'start-%s max_depth-%s yield_self-%s filter-%s'
-                                      % ('document' if is_doc else 'section', dcls, ys, fname)},
-                                 witness={'doc': witness, 'start': st.path_names(), 'max_depth': md, 'yield_self': ys},
+                                      % (sk, dcls, ys, fname)},
+                                 witness={'doc': witness, 'start': st.label(), 'max_depth': md, 'yield_self': ys},
                                  detail='observed %r; contract requires (breadth first, once each) %r'
                                         % (got if kind == 'exc' else [g.get_path() for g in got],
-                                           ['/' + '/'.join(e.path_names()) for e in exp]))
+                                           [e.label() for e in exp]))
             # --- iterproperties / itervalues: Properties of the start Section and of every Section yielded above
             holders = ([] if is_doc else [st]) + below
             for fname, ff in PROP_FILTERS:
@@ -258,27 +460,29 @@ def check_iter(col, tag, doc, root, nodes, witness, starts=None):
                 kw = {'max_depth': md}
                 if ff is not None:
                     kw['filter_func'] = ff
-                kind, got = h.call(lambda: list(st.obj.iterproperties(**kw)))
-                col.case(cls_key=(tag, 'iterproperties', is_doc, dcls, fname))
+                kind, got = call(lambda: list(st.obj.iterproperties(**kw)))
+                col.case(cls_key=(tag, 'iterproperties', sk, dcls, fname))
                 if kind == 'exc' or len(got) != len(exp) or any(g is not e[1] for g, e in zip(got, exp)):
                     col.fail(check=name + '/iterproperties',
                              cls={'clause': 'iterproperties-exact-bfs', 'feature': 'start-%s max_depth-%s filter-%s'
-                                  % ('document' if is_doc else 'section', dcls, fname)},
-                             witness={'doc': witness, 'start': st.path_names(), 'max_depth': md},
+                                  % (sk, dcls, fname)},
+                             witness={'doc': witness, 'start': st.label(), 'max_depth': md},
                              detail='observed %r; contract requires %r'
-                                    % (got if kind == 'exc' else [g.get_path() for g in got], [e[1].get_path() for e in exp]))
+                                    % (got if kind == 'exc' else [g.get_path() for g in got],
+                                       ['%s:%s' % (n.label(), pn) for n in holders for pn, _v, p in n.props
+                                        if ff is None or ff(p)]))
             for fname, ff in VAL_FILTERS:
                 exp = [list(v) for n in holders for _pn, v, _p in n.props if ff is None or ff(v)]
                 kw = {'max_depth': md}
                 if ff is not None:
                     kw['filter_func'] = ff
-                kind, got = h.call(lambda: list(st.obj.itervalues(**kw)))
-                col.case(cls_key=(tag, 'itervalues', is_doc, dcls, fname))
+                kind, got = call(lambda: list(st.obj.itervalues(**kw)))
+                col.case(cls_key=(tag, 'itervalues', sk, dcls, fname))
                 if kind == 'exc' or h.snap(list(got)) != h.snap(exp):
                     col.fail(check=name + '/itervalues',
                              cls={'clause': 'itervalues-exact-bfs', 'feature': 'start-%s max_depth-%s filter-%s'
-                                  % ('document' if is_doc else 'section', dcls, fname)},
-                             witness={'doc': witness, 'start': st.path_names(), 'max_depth': md},
+                                  % (sk, dcls, fname)},
+                             witness={'doc': witness, 'start': st.label(), 'max_depth': md},
                              detail='observed %r; contract requires %r' % (got, exp))
 
 
@@ -314,24 +518,26 @@ def queries(nodes, rnd=None, limit=None):
     return qs
 
 
+@silenced
 def check_find(col, tag, doc, root, nodes, witness, starts=None, rnd=None, qlimit=None):
     name = col.name
     objmap = {id(n.obj): n for n in [root] + nodes}
-    for st in (starts if starts is not None else [root] + nodes):
-        is_doc = st.parent is None
+    for st in (starts if starts is not None else all_starts(root, nodes)):
+        is_doc = st.kind()
+        skp = '' if is_doc in ('document', 'section') else 'start-%s ' % is_doc
         for key, qtype in queries(nodes, rnd, qlimit):
             # ---------------- find: direct children only
             for find_all in (False, True):
                 for subtype in (False, True):
                     allowed = [c for c in st.children if name_ok(c, key) and type_allowed(c, qtype, subtype)]
                     required = [c for c in st.children if name_ok(c, key) and type_required(c, qtype)]
-                    kind, got = h.call(st.obj.find, key=key, type=qtype, findAll=find_all, include_subtype=subtype)
+                    kind, got = call(st.obj.find, key=key, type=qtype, findAll=find_all, include_subtype=subtype)
                     col.case(cls_key=(tag, 'find', is_doc, key is None, qtype is None, find_all, subtype,
                                       bool(required)))
                     _judge(col, name + '/find', 'find', kind, got, allowed, required, find_all, objmap,
-                           {'doc': witness, 'start': st.path_names(), 'key': key, 'type': qtype,
-                            'findAll': find_all, 'include_subtype': subtype},
-                           'findAll-%s subtype-%s' % (find_all, subtype))
+                           lambda: {'doc': witness, 'start': st.label(), 'key': key, 'type': qtype,
+                                    'findAll': find_all, 'include_subtype': subtype},
+                           skp + 'findAll-%s subtype-%s' % (find_all, subtype))
             # ---------------- find_related
             for ch, sib, par, rec, find_all in itertools.product((False, True), repeat=5):
                 allowed, required = [], []
@@ -345,30 +551,31 @@ def check_find(col, tag, doc, root, nodes, witness, starts=None, rnd=None, qlimi
                 if par:
                     rel = [a for a in (st.ancestors() if rec else st.ancestors()[:1])]
                     allowed += rel
-                    required += [a for a in rel if a.parent is not None]
-                allowed = [n for n in allowed if n.parent is not None and name_ok(n, key) and type_allowed(n, qtype, False)]
+                    required += [a for a in rel if not a.is_doc]
+                allowed = [n for n in allowed if not n.is_doc and name_ok(n, key) and type_allowed(n, qtype, False)]
                 required = [n for n in required if name_ok(n, key) and type_required(n, qtype)]
-                kind, got = h.call(st.obj.find_related, key=key, type=qtype, children=ch, siblings=sib,
+                kind, got = call(st.obj.find_related, key=key, type=qtype, children=ch, siblings=sib,
                                    parents=par, recursive=rec, findAll=find_all)
                 col.case(cls_key=(tag, 'find_related', is_doc, key is None, qtype is None, ch, sib, par, rec, find_all,
                                   bool(required)))
                 _judge(col, name + '/find_related', 'find_related', kind, got, allowed, required, find_all, objmap,
-                       {'doc': witness, 'start': st.path_names(), 'key': key, 'type': qtype, 'children': ch,
-                        'siblings': sib, 'parents': par, 'recursive': rec, 'findAll': find_all},
-                       'children-%s siblings-%s parents-%s recursive-%s findAll-%s' % (ch, sib, par, rec, find_all))
+                       lambda: {'doc': witness, 'start': st.label(), 'key': key, 'type': qtype, 'children': ch,
+                                'siblings': sib, 'parents': par, 'recursive': rec, 'findAll': find_all},
+                       skp + 'children-%s siblings-%s parents-%s recursive-%s findAll-%s'
+                       % (ch, sib, par, rec, find_all))
 
 
-def _judge(col, check, fn, kind, got, allowed, required, find_all, objmap, witness, flags):
+def _judge(col, check, fn, kind, got, allowed, required, find_all, objmap, witness_fn, flags):
     if kind == 'exc':
         col.fail(check=check + '-raises', cls={'clause': fn + '-raises', 'feature': flags + ' ' + type(got).__name__},
-                 witness=witness, detail='raised %r' % (got,))
+                 witness=witness_fn(), detail='raised %r' % (got,))
         return
     if got is None:
         results = []
     elif find_all:
         if not isinstance(got, list):
             col.fail(check=check + '-result-type', cls={'clause': fn + '-result-type', 'feature': flags},
-                     witness=witness, detail='findAll returned %r, a list is required' % (got,))
+                     witness=witness_fn(), detail='findAll returned %r, a list is required' % (got,))
             return
         results = got
     else:
@@ -377,14 +584,14 @@ def _judge(col, check, fn, kind, got, allowed, required, find_all, objmap, witne
         if not any(r is a.obj for a in allowed):
             m = objmap.get(id(r))
             col.fail(check=check + '-only-matching', cls={'clause': fn + '-only-matching', 'feature': flags},
-                     witness=witness,
+                     witness=witness_fn(),
                      detail='returned %r (%s) which does not satisfy name/type within the requested relation; '
-                            'admissible: %r' % (r, m.path_names() if m else '?', [a.path_names() for a in allowed]))
+                            'admissible: %r' % (r, m.label() if m else '?', [a.label() for a in allowed]))
             break
     if required and not results:
         col.fail(check=check + '-finds-existing', cls={'clause': fn + '-finds-existing', 'feature': flags},
-                 witness=witness,
-                 detail='returned nothing although %r satisfy the request' % ([a.path_names() for a in required],))
+                 witness=witness_fn(),
+                 detail='returned nothing although %r satisfy the request' % ([a.label() for a in required],))
 
 
 # ---------------------------------------------------------------------------------------------
@@ -461,17 +668,197 @@ def random_tree(rnd, nsec, max_children=4):
     return shape, names
 
 
+# ---------------------------------------------------------------------------------------------
+# where the tree hangs / how it came to be
+# ---------------------------------------------------------------------------------------------
+
+def hang_scopes(tier, heavy=False):
+    """[(exact node count, name pool)] for the hang dimension (every view of every document of that scope)."""
+    if tier == 'quick':
+        return [(1, ['a', 'ab']), (2, ['a', 'ab']), (3, ['a', 'ab'])] if heavy else \
+               [(1, NAMES), (2, NAMES), (3, ['a', 'ab'])]
+    if heavy:
+        return [(1, NAMES), (2, NAMES), (3, ['a', 'ab', 'b'])]
+    return [(1, NAMES), (2, NAMES), (3, NAMES), (4, ['a', 'ab'])]
+
+
+def hang_views(shape, names, uniform=False, types=None, props=None, picks=None):
+    """Yield (tag, root, nodes, how) - trees to be judged: root is a Document node or a parentless Section
+    node, nodes are all Sections of that tree, how (json-able) tells how to rebuild it.
+    picks: optional list of pre-order indices the per-Section variants are restricted to (large trees)."""
+    def fresh(mode='topdown'):
+        doc, root, nodes = build(shape, names, types, props, uniform, mode)
+        return root, nodes
+
+    n = count_nodes(shape)
+    idx = list(range(n)) if picks is None else list(picks)
+
+    # (1) Documents assembled in other ways
+    for mode in BUILD_MODES[1:]:
+        root, nodes = fresh(mode)
+        yield 'doc-built-' + mode, root, nodes, {'built': mode}
+
+    # (1b) a Document that came out of a parser
+    root, nodes = fresh()
+    kind, d2 = h.call(lambda: XMLReader().from_string(str(XMLWriter(root.obj))))
+    mc = m_copy(root)
+    if kind == 'ret' and m_bind(mc, d2, take_values=True):
+        yield 'doc-loaded-from-xml', mc, mc.subtree(), {'built': 'XMLReader().from_string(str(XMLWriter(doc)))'}
+
+    # (2) a tree that never was in a Document (the forest must be a single tree)
+    if len(shape) == 1:
+        for mode in BUILD_MODES:
+            root, nodes = make_model(shape, names, types, props, uniform)
+            top = root.children[0]
+            top.parent = None
+            realize(top, mode)
+            yield 'alone-built-' + mode, top, nodes, {'standalone': mode}
+
+    # (3) clones: of every Section (never has a parent) and of the Document
+    root, nodes = fresh()
+    for k in idx:
+        kind, c = h.call(nodes[k].obj.clone)
+        mc = m_copy(nodes[k])
+        if kind == 'ret' and m_bind(mc, c):
+            yield 'clone-of-section', mc, mc.subtree(), {'clone_of': k}
+    kind, c = h.call(root.obj.clone)
+    mc = m_copy(root)
+    if kind == 'ret' and m_bind(mc, c):
+        yield 'clone-of-document', mc, mc.subtree(), {'clone_of': 'document'}
+
+    # (4) a Section taken out of its parent: the part taken out and what is left
+    for k in idx:
+        for how in ('remove', 'parent=None'):
+            root, nodes = fresh()
+            s = nodes[k]
+            with h.quiet():
+                if how == 'remove':
+                    s.parent.obj.remove(s.obj)
+                else:
+                    s.obj.parent = None
+            m_detach(s)
+            yield 'removed-subtree', s, s.subtree(), {'removed': k, 'by': how}
+            yield 'doc-after-removal', root, root.subtree(), {'removed': k, 'by': how}
+
+    # (5) a subtree moved / a clone attached inside the same Document, or moved into another Document
+    for k in idx:
+        root, nodes = fresh()
+        targets = [j for j, t in enumerate([root] + nodes)
+                   if t is not nodes[k].parent and not in_subtree(t, nodes[k])
+                   and nodes[k].name not in [c.name for c in t.children]]
+        if picks is not None:
+            targets = targets[:2]
+        for j in targets:
+            # moved within the Document
+            root, nodes = fresh()
+            s, t = nodes[k], ([root] + nodes)[j]
+            with h.quiet():
+                t.obj.append(s.obj)
+            m_attach(s, t)
+            yield 'doc-after-move', root, root.subtree(), {'moved': k, 'to': j - 1}
+            # clone attached at a second place
+            root, nodes = fresh()
+            s, t = nodes[k], ([root] + nodes)[j]
+            mc = m_copy(s)
+            kind, c = h.call(s.obj.clone)
+            if kind == 'ret' and m_bind(mc, c):
+                with h.quiet():
+                    t.obj.append(c)
+                m_attach(mc, t)
+                yield 'doc-with-attached-clone', root, root.subtree(), {'clone_of': k, 'attached_to': j - 1}
+        # moved into another Document of the same content: to its top level if possible, and below its last Section
+        for where in ('top', 'last'):
+            root, nodes = fresh()
+            root2, nodes2 = fresh()
+            s = nodes[k]
+            t = root2 if where == 'top' else nodes2[-1]
+            if s.name in [c.name for c in t.children]:
+                continue
+            with h.quiet():
+                if where == 'top':
+                    t.obj.insert(0, s.obj)
+                else:
+                    s.obj.parent = t.obj
+            m_attach(s, t, 0 if where == 'top' else None)
+            yield 'doc-that-lost-subtree', root, root.subtree(), {'moved': k, 'to_other_document': where}
+            yield 'doc-that-received-subtree', root2, root2.subtree(), {'moved': k, 'to_other_document': where}
+
+    # (6) renamed / moved to the front of the parent's list
+    for k in idx:
+        root, nodes = fresh()
+        s = nodes[k]
+        new = s.name + 'b'
+        if new not in [c.name for c in s.parent.children]:
+            with h.quiet():
+                s.obj.name = new
+                for pr in s.props[:1]:
+                    if pr[0] + 'b' not in [q[0] for q in s.props]:
+                        pr[2].name = pr[0] + 'b'
+                        pr[0] = pr[0] + 'b'
+            s.name = new
+            yield 'doc-after-rename', root, nodes, {'renamed': k, 'to': new}
+        root, nodes = fresh()
+        s = nodes[k]
+        if s.parent.children[0] is not s:
+            with h.quiet():
+                s.obj.reorder(0)
+            par = s.parent
+            par.children.remove(s)
+            par.children.insert(0, s)
+            yield 'doc-after-reorder', root, root.subtree(), {'moved_to_front': k}
+
+
+def exhaustive_hang(tier, heavy=False):
+    for n, pool in hang_scopes(tier, heavy):
+        for shape in h.tree_shapes(n):
+            if count_nodes(shape) != n:
+                continue
+            for names in name_assignments(shape, pool):
+                for uniform in (False, True):
+                    for tag, root, nodes, how in hang_views(shape, names, uniform):
+                        yield tag + ('-uniform' if uniform else ''), root, nodes, \
+                            {'shape': repr(shape), 'names': list(names), 'uniform': uniform, 'hang': how}
+
+
 def _run(part, fn, tier, seed, rule):
     col = Col('C14.' + part, rule=rule, exhaustive=True)
-    for shape, names in exhaustive_docs(tier, heavy=(part == 'find')):
+    heavy = (part == 'find')
+    for shape, names in exhaustive_docs(tier, heavy=heavy):
         doc, root, nodes = build(shape, names)
         fn(col, 'exh', doc, root, nodes, {'shape': repr(shape), 'names': list(names)})
+    # content in which Sections compare equal to their parent / to Sections elsewhere, in a Document
+    for n, pool in hang_scopes(tier, heavy):
+        for shape in h.tree_shapes(n):
+            if count_nodes(shape) == n:
+                for names in name_assignments(shape, pool):
+                    doc, root, nodes = build(shape, names, uniform=True)
+                    fn(col, 'doc-uniform', doc, root, nodes,
+                       {'shape': repr(shape), 'names': list(names), 'uniform': True})
+    for tag, root, nodes, witness in exhaustive_hang(tier, heavy):
+        fn(col, tag, root.obj, root, nodes, witness)
     return col
+
+
+def random_hang(fn, col, rng, shape, names, props, witness, nstarts, **kw):
+    """The hang dimension on a large random tree: per-Section variants for two sampled Sections."""
+    picks = rng.sample(range(len(names)), min(2, len(names)))
+    for tag, root, nodes, how in hang_views(shape, names, props=props, picks=picks):
+        starts = all_starts(root, nodes)
+        if len(starts) > nstarts:
+            starts = starts[:2] + rng.sample(starts[2:], nstarts - 2)
+        w = dict(witness)
+        w['hang'] = how
+        fn(col, 'rnd-' + tag, root.obj, root, nodes, w, starts, **kw)
 
 
 RULE = ('every ordered forest with exactly n Sections (n per tier) x every assignment of the names '
         "'a','ab','b','a b' with distinct sibling names; distinct = (clause, position class of start/target, "
-        'depth class, flags); %s; plus random large trees (sampled starts)')
+        'depth class, flags); %s; plus random large trees (sampled starts); the same on every "hang view" '
+        'of every document of a smaller scope: Documents built bottom-up / by insert(0) / by the parent setter, '
+        'stand-alone Section trees, the clone of every Section and of the Document, every Section after removal '
+        '(and the rest of the Document), subtrees moved inside the Document or into another Document, a clone '
+        'attached at a second place, a Section renamed or moved to the front - each with distinct content and '
+        'with uniform content (all Sections equal by ==); the view is part of the class key')
 
 
 def run_paths(tier, seed):
@@ -483,8 +870,15 @@ def run_paths(tier, seed):
         props = [rnd.choice([[], ['a'], ['a', 'ab'], ['a b', 'b', 'ab']]) for _ in names]
         doc, root, nodes = build(shape, names, props=props)
         starts = [root] + rnd.sample(nodes, min(len(nodes), 12))
-        check_paths(col, 'rnd', doc, root, nodes, {'random_tree': [seed, k], 'names': names, 'shape': repr(shape)}, starts)
+        wit = {'random_tree': [seed, k], 'names': names, 'shape': repr(shape)}
+        check_paths(col, 'rnd', doc, root, nodes, wit, starts)
+        random_hang(check_paths, col, rnd, shape, names, props, wit, 8)
     return col.result()
+
+
+def _relative_sampled(col, tag, doc, root, nodes, witness, starts):
+    secs = [x for x in starts if not x.is_doc]
+    check_relative(col, tag, doc, root, nodes, witness, [(a, b) for a in secs for b in secs])
 
 
 def run_relative(tier, seed):
@@ -494,7 +888,9 @@ def run_relative(tier, seed):
     for k in range(2 if tier == 'quick' else 12):
         shape, names = random_tree(rnd, 15 if tier == 'quick' else rnd.choice([40, 80, 120]))
         doc, root, nodes = build(shape, names, props=[[] for _ in names])
-        check_relative(col, 'rnd', doc, root, nodes, {'random_tree': [seed, k], 'names': names, 'shape': repr(shape)})
+        wit = {'random_tree': [seed, k], 'names': names, 'shape': repr(shape)}
+        check_relative(col, 'rnd', doc, root, nodes, wit)
+        random_hang(_relative_sampled, col, rnd, shape, names, [[] for _ in names], wit, 14)
     return col.result()
 
 
@@ -508,7 +904,9 @@ def run_iter(tier, seed):
         props = [rnd.choice([[], ['a'], ['a', 'ab'], ['a b', 'b', 'ab']]) for _ in names]
         doc, root, nodes = build(shape, names, props=props)
         starts = [root] + rnd.sample(nodes, min(len(nodes), 10))
-        check_iter(col, 'rnd', doc, root, nodes, {'random_tree': [seed, k], 'names': names, 'shape': repr(shape)}, starts)
+        wit = {'random_tree': [seed, k], 'names': names, 'shape': repr(shape)}
+        check_iter(col, 'rnd', doc, root, nodes, wit, starts)
+        random_hang(check_iter, col, rnd, shape, names, props, wit, 6)
     return col.result()
 
 
@@ -521,6 +919,7 @@ def run_find(tier, seed):
         shape, names = random_tree(rnd, 12 if tier == 'quick' else rnd.choice([40, 80]))
         doc, root, nodes = build(shape, names, props=[[] for _ in names])
         starts = [root] + rnd.sample(nodes, min(len(nodes), 6))
-        check_find(col, 'rnd', doc, root, nodes, {'random_tree': [seed, k], 'names': names, 'shape': repr(shape)},
-                   starts, rnd, 8)
+        wit = {'random_tree': [seed, k], 'names': names, 'shape': repr(shape)}
+        check_find(col, 'rnd', doc, root, nodes, wit, starts, rnd, 8)
+        random_hang(check_find, col, rnd, shape, names, [[] for _ in names], wit, 4, rnd=rnd, qlimit=6)
     return col.result()
